@@ -843,5 +843,13 @@ def extra_checks(ck, tier, rng):
                 if got != want:
                     fails.append(('pybtex ' + ' '.join(argv), 'doc.bbl differs from the explicit call (style %s, format %s, min_crossrefs %d): %r vs %r; bib %r, citations %r'
                                   % (sty, U.SUFFIX[fmt], m, got[:200], want[:200], U.bib_text(norm(db))[:300], cites), True))
+    # the syntactic predicate of theorem items_per_citation, evaluated on the shipped styles' ASTs
+    pred, pf = {}, []
+    for sname in U.STYLES_THOROUGH:
+        ok, why = U.style_item_predicate(sname, [t for t in RTYPES])
+        pred[sname] = [ok, why]
+        if sname in ('plain', 'unsrt', 'alpha', 'unsrt_mixed', 'apacite') and not ok:
+            pf.append((sname + '.bst', 'no longer has the shape theorem items_per_citation speaks about: ' + why, False))
+    yield {'name': 'item_predicate_on_shipped_styles', 'evaluations': len(pred), 'failures': pf, 'info': pred}
     yield {'name': 'command_line_plumbing', 'evaluations': n, 'failures': fails[:5],
            'info': 'pybtex [-s style] [-f format] [--min-crossrefs n] file[.aux] writes what format_from_files(style, format, min_crossrefs) returns'}
